@@ -2,6 +2,7 @@
 #define SQUIDS_CACHE_H
 
 #include <atomic>
+#include "Verif.h"
 
 namespace squids{
 namespace detail{
@@ -64,16 +65,19 @@ private:
       list.index=max_buffer_size;
     return(entries+orig.index);
 #else
+    SQUIDS_VERIF_YIELD("pop.load",&list,0);
     list_head orig=list.load(), next;
     do{
       if(orig.index==max_buffer_size) //empty stack
         return(nullptr);
       next.counter=orig.counter+1;
+      SQUIDS_VERIF_YIELD("pop.next",&orig,orig.index);
       auto next_ptr=entries[orig.index].next;
       if(next_ptr)
         next.index=next_ptr-entries;
       else
         next.index=max_buffer_size;
+      SQUIDS_VERIF_YIELD("pop.cas",&orig,next.index);
     }while(!std::atomic_compare_exchange_weak(&list, &orig, next));
     return(entries+orig.index);
 #endif
@@ -90,15 +94,18 @@ private:
       node->next=entries+list.index;
     list.index=node-entries;
 #else
+    SQUIDS_VERIF_YIELD("push.load",&list,node-entries);
     list_head orig=list.load(), next;
     uint32_t idx=node-entries;
     next.index=idx;
     do{
       next.counter=orig.counter+1;
+      SQUIDS_VERIF_YIELD("push.link",&orig,idx);
       if(orig.index==max_buffer_size)
         node->next=nullptr;
       else
         node->next=entries+orig.index;
+      SQUIDS_VERIF_YIELD("push.cas",&orig,idx);
     }while(!std::atomic_compare_exchange_weak(&list, &orig, next));
 #endif
   }
@@ -132,6 +139,7 @@ public:
     if(!entry){ //no space left in cache
       return(false);
     }
+    SQUIDS_VERIF_YIELD("ins.write",entry,entry-entries);
     entry->data=value;
     push(data_list,entry);
     return(true);
@@ -145,6 +153,7 @@ public:
     if(!entry) //no cached memory available
       return(T());
     push(free_list,entry);
+    SQUIDS_VERIF_YIELD("get.read",entry,entry-entries);
     return(*entry);
   }
 };
